@@ -1877,12 +1877,6 @@ theorem step_blockPlaceable {s : Src} (hs : AsciiThenBoundary s) {m : Nat} (hpl 
 
 /-! ## the end of a pattern -/
 
-/-- what follows a pattern in every context of the grammar: a line end; and the first non-blank byte after it
-is not `{`, and is one of `.` `[` `*` `}` unless it stands in column 0 (the next entry) -/
-def PatFollow (r : List UInt8) : Prop :=
-  (lineEnd r).isSome = true ∧
-    ∀ b t, blankOpt r = b :: t → b ≠ 123 ∧ (b = 46 ∨ b = 91 ∨ b = 42 ∨ b = 125 ∨ afterBlank r = b :: t)
-
 theorem blankOpt_spaces (i : List UInt8) : blankOpt (spaces i) = blankOpt i := by
   fun_induction spaces i <;> simp_all [blankOpt]
 
@@ -2251,5 +2245,326 @@ theorem loop_step {s : Src} (hs : AsciiThenBoundary s) (hSurv : Surv s) {m : Nat
       obtain ⟨n2, st2, p2, k2, g1, g2, g3, g4, g5, g6⟩ := hstep
       obtain ⟨st', q, k', h1, h2, h3, h4⟩ := ih n2 st2 p2 r1 (acc ++ els) k2 lead more r2 hmore g2 g3 (Or.inl g6) hfol g4
       exact ⟨st', q, k', by rw [g1, h1], by rw [← List.append_assoc]; exact h2, h3, h4⟩
+
+
+/-! ## `get_pattern` -/
+
+theorem loopRef_zero (s : Src) : LoopRef s 0 := by
+  intro n st p i acc k lead raws r h; simp [patternElements] at h
+
+theorem skipBlankBlockGo_shift (s : Src) (n p c : Nat) :
+    skipBlankBlockGo s n p c = ((skipBlankBlockGo s n p 0).1, c + (skipBlankBlockGo s n p 0).2) := by
+  induction n generalizing p c with
+  | zero => simp [skipBlankBlockGo]
+  | succ n ih =>
+    simp only [skipBlankBlockGo]
+    split
+    · rename_i p' _
+      rw [ih p' (c + 1), ih p' (0 + 1)]
+      simp only [Prod.mk.injEq, true_and]
+      omega
+    · split <;> simp
+
+/-- where `skip_blank_block` stops, the grammar's scan goes on from; the line there is not blank -/
+theorem skipBlankBlockGo_scan {s : Src} (hs : AsciiThenBoundary s) (n p c : Nat) (hn : s.size - p + 1 ≤ n) (hp : p ≤ s.size)
+    (hbp : Bnd s p) :
+    blankBlockScan (rest s p) (rest s p) c =
+        blankBlockScan (rest s (skipBlankBlockGo s n p c).1) (rest s (skipBlankBlockGo s n p c).1) (skipBlankBlockGo s n p c).2 ∧
+      NonBlankLine s (skipBlankBlockGo s n p c).1 ∧ p ≤ (skipBlankBlockGo s n p c).1 ∧
+      (skipBlankBlockGo s n p c).1 ≤ s.size ∧ Bnd s (skipBlankBlockGo s n p c).1 := by
+  induction n generalizing p c with
+  | zero => omega
+  | succ n ih =>
+    have hp1le := (skipBlankInline_after s p).le
+    have hp1s := (skipBlankInline_after s p).le_size hp
+    have hb1 : Bnd s (skipBlankInline s p) := (skipBlankInline_after s p).bnd hs hbp
+    simp only [skipBlankBlockGo]
+    cases hse : skipEol s (skipBlankInline s p) with
+    | some q =>
+      simp only
+      have hq := skipEol_some hse
+      have hqs : q ≤ s.size := (skipEol_after hse).le_size hp1s
+      have hbq : Bnd s q := (skipEol_after hse).bnd hs hb1
+      obtain ⟨i1, i2, i3, i4, i5⟩ := ih q (c + 1) (by omega) hqs hbq
+      refine ⟨?_, i2, by omega, i4, i5⟩
+      rw [← i1, scan_skip_spaces, scan_line s (rest s p) c _ (skipBlankInline_stop s p), hse]
+    | none =>
+      simp only
+      by_cases hlt : skipBlankInline s p < s.size
+      · simp only [hlt, if_true]
+        refine ⟨trivial, ?_, Nat.le_refl _, hp, hbp⟩
+        right
+        have hsome : s[skipBlankInline s p]? = some s[skipBlankInline s p] := by simp [hlt]
+        refine ⟨_, hsome, ?_, ?_⟩
+        · intro h10
+          rw [h10] at hsome
+          simp [skipEol, hsome] at hse
+        · rintro ⟨h13, h10⟩
+          rw [h13] at hsome
+          simp [skipEol, hsome, h10] at hse
+      · simp only [hlt, if_false]
+        have hnil : rest s (skipBlankInline s p) = [] := rest_eq_nil_iff.mpr (by omega)
+        refine ⟨?_, ?_, hp1le, hp1s, hb1⟩
+        · rw [scan_skip_spaces, hnil]
+          simp [blankBlockScan]
+        · left
+          have := (skipBlankInline_after s (skipBlankInline s p)).le
+          simp; omega
+
+
+theorem skipEol_head {s : Src} {p q : Nat} (h : skipEol s p = some q) :
+    (s[p]? = some 10 ∧ q = p + 1) ∨ (s[p]? = some 13 ∧ s[p + 1]? = some 10 ∧ q = p + 2) := by
+  unfold skipEol at h
+  split at h
+  · rename_i h10; injection h with h; exact Or.inl ⟨h10, h.symm⟩
+  · rename_i h13
+    split at h
+    · rename_i h2; injection h with h; exact Or.inr ⟨h13, by simpa using h2, h.symm⟩
+    · cases h
+  · cases h
+
+theorem inv_init (s : Src) (role : TextPos) (k : Nat) : Inv s ⟨[], none, none, role, none⟩ [] k k where
+  flatEq := by intro c; simp [rawFlat, flat, phsFlat]
+  ci := rfl
+  kept := rfl
+  trail := by intro c x hx; simp [phsFlat] at hx
+  noneInd := by intro _ c; rfl
+  headOK := Or.inl rfl
+  txOK := by intro ph h; cases h
+
+/-- the part of `get_pattern` after the loop -/
+def patFinish (s : Src) (r : R PatState) : R (Option (Pattern Span)) :=
+  match r with
+  | .ok st q =>
+    (match st.lastNonBlank with
+     | some lnb =>
+       (match finishElements s st.keptCommonIndent lnb 0 st.elements with
+        | some els => .ok (some els) q
+        | none => .panic "get_pattern slice")
+     | none => .ok none q)
+  | .err e q => .err e q
+  | .panic m => .panic m
+  | .fuel => .fuel
+
+theorem getPattern_inline {s : Src} {n p0 : Nat} (h : skipEol s (skipBlankInline s p0) = none) :
+    getPattern s (n + 1) p0 =
+      patFinish s (getPatternLoop s n ⟨[], none, none, .initialLineStart, none⟩ (skipBlankInline s p0)) := by
+  simp only [getPattern, h, patFinish]
+  rfl
+
+theorem getPattern_block {s : Src} {n p0 q : Nat} (h : skipEol s (skipBlankInline s p0) = some q) :
+    getPattern s (n + 1) p0 =
+      patFinish s (getPatternLoop s n ⟨[], none, none, .lineStart, none⟩ (skipBlankBlock s q).1) := by
+  simp only [getPattern, h, patFinish]
+  rfl
+
+/-- **Pattern layer.** `Pattern ::= PatternElement+` with the abstract-syntax pass (`finishPattern`) against
+`get_pattern`: the same pattern after joining text, and the parser stops at the start of the first line that
+is not part of the pattern. -/
+theorem pattern_step {s : Src} (hs : AsciiThenBoundary s) {m : Nat} (hloop : LoopRef s m) :
+    PatternRef s (m + 1) := by
+  intro n p0 pat r hP hfol hp0 hb0 hn
+  obtain ⟨n0, rfl⟩ : ∃ n0, n = n0 + 1 := ⟨n - 1, by omega⟩
+  simp only [pattern] at hP
+  cases hpe : patternElements m (spaces (rest s p0)) with
+  | fail => rw [hpe] at hP; cases hP
+  | fuel => rw [hpe] at hP; cases hP
+  | ok els r' =>
+    rw [hpe] at hP
+    simp only at hP
+    split at hP
+    · cases hP
+    · rename_i hne
+      injection hP with e1 e2; subst e1; subst e2
+      have hne' : (finishPattern els).isEmpty = false := by simpa using hne
+      rw [spaces_eq_skipBlankInline] at hpe
+      have hA1 := skipBlankInline_after s p0
+      have hp1le := hA1.le
+      have hp1s := hA1.le_size hp0
+      have hb1 : Bnd s (skipBlankInline s p0) := hA1.bnd hs hb0
+      have hgood := (specs_all hs (n0 + 1)).pattern p0 hp0 hb0 hn
+      -- run the loop from the initial state
+      have hrun : ∃ role p2 k,
+          getPattern s (n0 + 1) p0 = patFinish s (getPatternLoop s n0 ⟨[], none, none, role, none⟩ p2) ∧
+          Sync s role p2 (rest s (skipBlankInline s p0)) k ∧
+          InitOK s ⟨[], none, none, role, none⟩ p2 (rest s (skipBlankInline s p0)) ∧ p0 ≤ p2 := by
+        cases hse : skipEol s (skipBlankInline s p0) with
+        | none =>
+          refine ⟨.initialLineStart, skipBlankInline s p0, 0, getPattern_inline hse, ⟨hp1s, hb1, by simp⟩, ?_, hp1le⟩
+          right; right
+          refine ⟨by simp, ?_⟩
+          have hT := lineEnd_eq_skipEol s (skipBlankInline s p0)
+          rw [hse] at hT
+          simp only at hT
+          by_cases hsz : s.size ≤ skipBlankInline s p0
+          · left; exact rest_eq_nil_iff.mpr hsz
+          · right; rw [hT]; simp [hsz]
+        | some q =>
+          have hq := skipEol_some hse
+          have hqs : q ≤ s.size := (skipEol_after hse).le_size hp1s
+          have hbq : Bnd s q := (skipEol_after hse).bnd hs hb1
+          obtain ⟨i1, i2, i3, i4, i5⟩ := skipBlankBlockGo_scan hs (s.size - q + 1) q 1 (Nat.le_refl _) hqs hbq
+          have hshift := skipBlankBlockGo_shift s (s.size - q + 1) q 1
+          rw [hshift] at i1 i2 i3 i4 i5
+          simp only at i1 i2 i3 i4 i5
+          refine ⟨.lineStart, (skipBlankBlock s q).1, 1 + (skipBlankBlock s q).2, getPattern_block hse, ⟨i4, i5, ?_⟩, ?_, by
+            unfold skipBlankBlock; omega⟩
+          · simp only [if_true]
+            rcases skipEol_head hse with ⟨h10, hq1⟩ | ⟨h13, h10, hq1⟩
+            · subst hq1
+              refine ⟨?_, _, Or.inl (rest_cons h10)⟩
+              rw [rest_cons h10, blankBlock_nl]; exact i1
+            · subst hq1
+              refine ⟨?_, _, Or.inr (by rw [rest_cons h13, rest_cons h10])⟩
+              rw [rest_cons h13, rest_cons h10, blankBlock_crlf]; exact i1
+          · right; left; exact ⟨rfl, i2⟩
+      obtain ⟨role, p2, k, hinit, hsync, hiok, hp2⟩ := hrun
+      obtain ⟨st', q, k', l1, l2, l3, l4⟩ :=
+        hloop n0 ⟨[], none, none, role, none⟩ p2 _ [] k k els r' hpe (inv_init s role k) hsync hiok hfol
+          (by have := hsync.1; omega)
+      simp only [List.nil_append] at l2
+      -- the result of `get_pattern`
+      have hgp : getPattern s (n0 + 1) p0 =
+          (match st'.lastNonBlank with
+           | some lnb =>
+             (match finishElements s st'.keptCommonIndent lnb 0 st'.elements with
+              | some els => .ok (some els) q
+              | none => .panic "get_pattern slice")
+           | none => .ok none q) := by
+        rw [hinit, l1]; rfl
+      have hfin : ∀ l, st'.lastNonBlank = some l → ∃ R, finishElements s st'.keptCommonIndent l 0 st'.elements = some R := by
+        intro l hl
+        cases hfe : finishElements s st'.keptCommonIndent l 0 st'.elements with
+        | some R => exact ⟨R, rfl⟩
+        | none =>
+          exfalso
+          rw [hgp, hl] at hgood
+          simp only [hfe] at hgood
+          exact hgood
+      obtain ⟨l, R, c1, c2, c3⟩ := pattern_close l2 hne' hfin
+      refine ⟨R, q, ?_, c3, l4, ?_, l3⟩
+      · rw [hgp, c1]; simp only [c2]
+      · have := (specs_all hs (n0 + 1)).pattern p0 hp0 hb0 hn
+        rw [hgp, c1] at this
+        simp only [c2] at this
+        exact ((good_ok _ _ _ _ _).mp this).1
+
+
+/-! ## expression layer and pattern layer together -/
+
+theorem patternRef_zero (s : Src) : PatternRef s 0 := by
+  intro n p0 pat r h; simp [pattern] at h
+
+/-- **T2 + T3 (expressions and patterns).** Under the side condition `Surv s`, for every spec fuel: wherever a
+production of the grammar — inline expression, call arguments, placeable, select expression, variant list,
+pattern — accepts, the parser model returns the same tree (spans resolved, adjacent text joined) and stops
+at the corresponding position. -/
+theorem allRef {s : Src} (hs : AsciiThenBoundary s) (hSurv : Surv s) :
+    ∀ m, ∀ j, j ≤ m → ExprRef s j ∧ PatternRef s j ∧ LoopRef s j := by
+  intro m
+  induction m with
+  | zero =>
+    intro j hj
+    have : j = 0 := by omega
+    subst this
+    exact ⟨exprRef_zero s, patternRef_zero s, loopRef_zero s⟩
+  | succ m ih =>
+    intro j hj
+    by_cases hjm : j ≤ m
+    · exact ih j hjm
+    · have : j = m + 1 := by omega
+      subst this
+      obtain ⟨he, hp, hl⟩ := ih m (Nat.le_refl _)
+      exact ⟨exprRef_step hs he hp,
+        pattern_step hs hl,
+        loop_step hs hSurv (fun j hj => (ih j hj).1.placeable) hl⟩
+
+theorem exprRef_all {s : Src} (hs : AsciiThenBoundary s) (hSurv : Surv s) (m : Nat) : ExprRef s m :=
+  (allRef hs hSurv m m (Nat.le_refl _)).1
+
+theorem patternRef_all {s : Src} (hs : AsciiThenBoundary s) (hSurv : Surv s) (m : Nat) : PatternRef s m :=
+  (allRef hs hSurv m m (Nat.le_refl _)).2.1
+
+
+/-! ## the side condition -/
+
+/-- every carriage return is part of a CRLF -/
+def NoLoneCR (s : Src) : Prop := ∀ p : Nat, s[p]? = some (13 : UInt8) → s[p + 1]? = some (10 : UInt8)
+
+theorem textRun_step {b b' : UInt8} {r t r' : List UInt8} (h : textRun (b :: r) = (b' :: t, r')) :
+    b' = b ∧ b ≠ 10 ∧ ¬ (b = 13 ∧ ∃ r2, r = 10 :: r2) ∧ textRun r = (t, r') := by
+  obtain ⟨r0, h0, h1, h2, h3⟩ := textRun_head_ne h
+  injection h0 with e1 e2
+  subst e2
+  rw [e1] at h ⊢
+  by_cases h13 : b' = 13
+  · subst h13
+    cases r with
+    | nil =>
+      rw [textRun_cr_eof] at h
+      injection h with e1' e2'; injection e1' with _ e3
+      subst e3; subst e2'
+      refine ⟨rfl, h3, ?_, ?_⟩ <;> first | (rintro ⟨_, r2, hr⟩; cases hr) | simp [textRun]
+    | cons c r2 =>
+      by_cases hc : c = 10
+      · subst hc; rw [textRun_crlf] at h; cases h
+      · rw [textRun_cr_other _ hc] at h
+        injection h with e1' e2'; injection e1' with _ e3
+        refine ⟨rfl, h3, ?_, by rw [← e3, ← e2']⟩
+        rintro ⟨_, r3, hr⟩; injection hr with hr _; exact hc hr
+  · rw [textRun_plain _ h3 h1 h2 h13] at h
+    injection h with e1' e2'; injection e1' with _ e3
+    exact ⟨rfl, h3, by rintro ⟨h, _⟩; exact h13 h, by rw [← e3, ← e2']⟩
+
+/-- inside a run of text chars there is no line end -/
+theorem textRun_no_eol {s : Src} : ∀ (d p ts : Nat), ts - p ≤ d → ts ≤ s.size →
+    textRun (rest s p) = (seg s p ts, rest s ts) →
+    ∀ j, p ≤ j → j < ts → s[j]? ≠ some 10 ∧ ¬ (s[j]? = some 13 ∧ s[j + 1]? = some 10) := by
+  intro d
+  induction d with
+  | zero => intro p ts hd _ _ j h1 h2; omega
+  | succ d ih =>
+    intro p ts hd hts hrun j h1 h2
+    have hlt : p < s.size := by omega
+    have hsome : s[p]? = some s[p] := by simp [hlt]
+    rw [rest_cons hsome, seg_cons hsome (by omega)] at hrun
+    obtain ⟨_, e2, e3, e4⟩ := textRun_step hrun
+    by_cases hj : j = p
+    · subst hj
+      rw [hsome]
+      refine ⟨by intro h; injection h with h; exact e2 h, ?_⟩
+      rintro ⟨h13, h10⟩
+      injection h13 with h13
+      exact e3 ⟨h13, _, rest_cons h10⟩
+    · exact ih (p + 1) ts (by omega) hts e4 j (by omega) h2
+
+/-- a source without lone carriage returns satisfies the side condition -/
+theorem surv_of_noLoneCR {s : Src} (hs : AsciiThenBoundary s) (h : NoLoneCR s) : Surv s := by
+  intro p start stop nb term q hlt hts hnb
+  have hF := sliceFacts hs hlt hts
+  rw [hF.nbeq] at hnb
+  obtain ⟨j, x, j1, j2, j3, j4⟩ := nonBlank_true hnb
+  have hno := textRun_no_eol (s := s) (textStop term stop - p) p (textStop term stop) (Nat.le_refl _)
+    (by have := hF.stople; have := hF.tle; omega) hF.run j j1 j2
+  refine ⟨j, x, j1, j2, j3, ?_⟩
+  have h10 : x ≠ 10 := by intro hx; subst hx; exact hno.1 j3
+  have h13 : x ≠ 13 := by
+    intro hx; subst hx
+    exact hno.2 ⟨j3, h j j3⟩
+  simp [isTrailingWs, j4, h10, h13]
+
+
+/-- the witness of the known finding F30 (`a =\n  x\n \r`) violates the side condition: its last line is
+a lone carriage return, a text slice that is not blank and yet is trimmed away entirely -/
+theorem f30_witness_not_surv : ¬ Surv (strBytes "a =\n  x\n \r").toArray := by
+  intro h
+  obtain ⟨j, b, h1, h2, h3, h4⟩ := h 9 9 10 true .eof 10 (by decide) (by rfl) rfl
+  have hj : j = 9 := by simp only [textStop] at h2; omega
+  subst hj
+  have h9 : (strBytes "a =\n  x\n \r").toArray[9]? = some 13 := by decide +kernel
+  rw [h9] at h3
+  injection h3 with h3
+  subst h3
+  simp [isTrailingWs] at h4
 
 end FluentProofs.PatLoop
